@@ -94,6 +94,19 @@ prop("C06", "Check mode is read-only and exact; all emit modes agree on the text
      statement_clauses={"U05": "`--check` exits with 1 exactly when plain `rustfmt` would rewrite at least one of the files, and with 0 otherwise",
                         "U16": "files mode touches a file only if its formatted text differs from what is on disk; the non-files emitters never modify a file"})
 
+prop("C12", "Diff-based reports reconstruct the formatted text exactly", "exploration",
+     ["U15"],
+     [{"clause": "the chunks of the modified-lines report applied to the original yield the formatted text line for line; parse(display(m)) == m", "status": "bounded", "by": "U15 (the property's own exhaustive quantifier)"},
+      {"clause": "each diff hunk's context, removed and added lines are consistent with both texts at the stated line numbers; hunks ordered and disjoint; context sizes 0..3", "status": "bounded", "by": "U15"},
+      {"clause": "json and checkstyle name the same line numbers and texts as the chunks", "status": "bounded", "by": "U15"},
+      {"clause": "a report is empty exactly when the two texts have the same lines", "status": "bounded", "by": "U15 — KNOWN FINDING for checkstyle on pure deletions"},
+      {"clause": "json and checkstyle documents are well-formed whatever characters the source contains", "status": "bounded", "by": "U15 (special-character alphabet; XmlEscaped on all strings <= 4 over the 5 specials) — KNOWN FINDING: U+000C in checkstyle"},
+      {"clause": "random real source/formatted pairs", "status": "not_decided", "by": "-"}],
+     "C12's quantifier is itself a finite exhaustive domain (all pairs of line sequences of length <= 5 over a 3-letter alphabet incl. the empty line, with/without final newline, context 0..3); the unit enumerates it completely on the real make_diff / ModifiedLines / JsonEmitter / output_checkstyle_file / XmlEscaped text with the real diff crate. "
+     "No deductive back end reaches this code (Vec<String>, VecDeque, diff::lines iterator, fmt::Display, serde): Verus rejects it, Kani does not terminate on String code; hence level exploration, exhaustive within the stated bound. quick = length <= 3, thorough = length <= 5.",
+     statement_clauses={"U15": "the chunks of the modified-lines report applied to the original yield the formatted text line for line ... A report is empty exactly when the two texts have the same lines"},
+     assumptions=["diff::lines yields a correct edit script (dependency, trusted)", "serde_json produces well-formed JSON", "a text is its lines joined by \\n; the empty text has no line"])
+
 # ------------------------------------------------------------------ MANIFEST texts
 T_V = "contract-based deductive verification: Verus on mechanically extracted real functions"
 T_K = "contract-based verification: Kani harnesses over full-domain symbolic inputs on extracted loop-free real functions (complete)"
@@ -105,6 +118,8 @@ MANIFEST_TEXT = {
             "note": "Kani/CBMC, extractor; FS model; frame scan assumes FS mutation is only reachable through the scanned std names", "technique": T_K + " + " + T_B + " + frame scan"},
     "C07": {"text": "The C07 sentence is transcribed as a spec function; Verus proves the verbatim FormatLines step functions against it and the fold for texts of unbounded length, all usize configurations (tab_spaces >= 1). The real iterate/CharClasses/is_skipped_line/track_errors are tied to the same spec bounded-exhaustively.",
             "note": "Verus/Z3, extractor; 10-line driver loop restated (CharClasses is outside Verus); contains_line and is_skipped_line assumed in V and checked in B; char kinds taken from CharClasses", "technique": T_V + " + " + T_B},
+    "C12": {"text": "The property's own exhaustive quantifier (all pairs of line sequences <= 5 over {\"\",a,b}, final newline y/n, context 0..3) is enumerated completely on the real diff/report code with independent oracles (apply-chunks, re-parse, line-number consistency, XML/JSON well-formedness). Bounded stand-in: no deductive back end reaches this String/iterator code.",
+            "note": "diff crate and serde_json trusted; Config shim (color, verbose); two recorded known findings for the checkstyle report", "technique": T_B},
     "C15": {"text": "Only the inter-file session state is within reach: ReportedErrors::add is a field-wise OR, exit status of a multi-file run is the max of the single statuses, override_config restores the config — all proved by Kani over fully symbolic inputs (loop-free, complete). Determinism of the formatter proper is not decided.",
             "note": "Kani/CBMC, extractor; Session shim with the real fields; Session::format is a harness-chosen outcome", "technique": T_K},
     "C16": {"text": "Verus discharges machine-integer overflow obligations on the verbatim text of the contracted integer functions for all inputs; bounded native units catch any panic on their enumerated domains (labelled bounded). Parser/catch_unwind/stack clauses are not decided.",
